@@ -303,6 +303,50 @@ def cross_language(bs: List[Fields], d: str) -> Tuple[List[Dict[str, Any]], Dict
     return problems, {"hash_comparisons": n, "messages": len(want), "pyfile": paths["python"]}
 
 
+def rebuild_hashes(d: str) -> Tuple[List[Dict[str, Any]], int]:
+    """a closure is built, then ONLY an imported file is edited (field rename / retype / id change; the root file keeps its text
+    and its time stamp) and the closure is built again into the same directory: the hash in every output is the new one"""
+    from .. import valx
+
+    problems = []
+    n = 0
+    edits_ = {"field-rename": {"a": "int32", "c": "double"}, "field-retype": {"a": "int32", "b": "float"}, "field-added": {"a": "int32", "b": "double", "z": "int32"},
+              "fields-swapped": {"b": "double", "a": "int32"}}
+    for label, fields2 in edits_.items():
+        wd = os.path.join(d, "rb_" + label)
+        v1 = defx.Program({"root.yaml": {"imports": ["sub/defs.yaml"], "message_defs": {"ROOTMSG": {"id": 3901, "fields": {"q": "int32"}}}},
+                           "sub/defs.yaml": {"struct_defs": STRUCTS, "message_defs": {"MOVED": {"id": 3900, "fields": {"a": "int32", "b": "double"}}}}})
+        paths = defx.compile_program(v1, wd, name="gen")
+        h1 = defx.parse_model(paths["root"], import_coredefs=False).message_defs["MOVED"].hash
+        with open(os.path.join(wd, "src", "sub", "defs.yaml"), "w") as fh:
+            fh.write(defx.render_file({"struct_defs": STRUCTS, "message_defs": {"MOVED": {"id": 3900, "fields": fields2}}}))
+        try:
+            valx.compile_file(paths["root"], "gen", os.path.join(wd, "gen"), python=True, c_lang=True, javascript=True, matlab=True)
+        except Exception as e:
+            problems.append({"kind": "rebuild-rejected", "edit": label, "exc": f"{type(e).__name__}: {str(e)[:160]}"})
+            continue
+        h2 = defx.parse_model(paths["root"], import_coredefs=False).message_defs["MOVED"].hash
+        if h2 == h1:
+            problems.append({"kind": "edit-keeps-hash", "base": ["MOVED", 3900, []], "edit": label, "same_as": "base", "hash": h1[:8], "depth": 1})
+        want = int(h2[:8], 16)
+        got = {}
+        try:
+            got["python"] = defx.sig_python(paths["python"])["defs"]["MOVED"]["hash"]
+            got["c"] = _hex(defx.sig_c(paths["c_lang"], wd, defx.core_header(wd))["defines"].get("HASH_MOVED"))
+            got["js"] = int((defx.sig_js([paths["javascript"]], wd)[paths["javascript"]].get("HASH") or {}).get("MOVED", "0"), 16)
+            got["matlab"] = int(str((defx.run_matlab(paths["matlab"])["RTMA"].get("hash") or {}).get("MOVED", "0")), 16)
+        except core.HarnessError:
+            raise
+        except BaseException as e:
+            problems.append({"kind": "output-unreadable", "lang": "rebuild:" + label, "exc": f"{type(e).__name__}: {str(e)[:160]}"})
+        for lang, h in got.items():
+            n += 1
+            if h != want:
+                problems.append({"kind": "hash-stale-after-rebuild", "lang": lang, "edit": label, "parser": hex(want), "got": hex(h) if h is not None else None,
+                                 "hash_before_the_edit": h1[:8]})
+    return problems, n
+
+
 def wire_versions(pyfile: str) -> Tuple[List[Dict[str, Any]], int]:
     """the version field the real Client puts on the wire for every class of the generated module and of core_defs"""
     from .. import clx, proto as P
@@ -384,6 +428,9 @@ def run(tier: str) -> int:
         p3, nwire = wire_versions(st["pyfile"])
         allp += p3
         totals["wire_frames"] = nwire
+        p4, nrb = rebuild_hashes(d)
+        allp += p4
+        totals["rebuild_hash_comparisons"] = nrb
         totals["cross_process_messages"] = nmsg
     finally:
         core.rmtree(d)
@@ -415,6 +462,9 @@ def replay(case) -> int:
             bs = bases()
             if p["kind"] == "hash-differs-between-processes":
                 hit, _ = cross_process(bs, d)
+            elif p["kind"] in ("hash-stale-after-rebuild", "rebuild-rejected"):
+                hit, _ = rebuild_hashes(d)
+                hit = [q for q in hit if q["kind"] == p["kind"]]
             else:
                 p2, st = cross_language(bs, d)
                 p3, _ = wire_versions(st["pyfile"])
